@@ -361,6 +361,52 @@ type queueRun struct {
 	next   int
 	serial uint32
 	hist   []string
+	base   []uint32 // contents written by the last H2D
+	ops    []step   // kernels since the last H2D
+}
+
+// explainByDroppedKernels reports whether got equals base with the kernels
+// applied in submission order but a non-empty subset of them skipped (what a
+// stale cache line produces), and which ones.
+func explainByDroppedKernels(base uint32, ops []step, got uint32) ([]string, bool) {
+	n := len(ops)
+	if n == 0 || n > 16 {
+		return nil, false
+	}
+	for mask := 1; mask < 1<<n; mask++ { // bit set = kernel dropped
+		v := base
+		for k, st := range ops {
+			if mask&(1<<k) == 0 {
+				v = st.Op.Apply(v, st.C)
+			}
+		}
+		if v == got {
+			// A stale line read by a later kernel leaves a gap: some kernel
+			// after the dropped one still took effect. If only the tail of
+			// the chain is missing, the read-back itself is at fault (missing
+			// flush, lost kernel) and this explanation does not apply.
+			highestApplied := -1
+			lowestDropped := n
+			for k := 0; k < n; k++ {
+				if mask&(1<<k) == 0 {
+					highestApplied = k
+				} else if k < lowestDropped {
+					lowestDropped = k
+				}
+			}
+			if highestApplied < lowestDropped {
+				continue
+			}
+			var d []string
+			for k, st := range ops {
+				if mask&(1<<k) != 0 {
+					d = append(d, fmt.Sprintf("#%d %v(%d)", k+1, st.Op, st.C))
+				}
+			}
+			return d, true
+		}
+	}
+	return nil, false
 }
 
 func (cs *childState) runStep(slot int, sc *scenario, qi int, qr *queueRun, r *vlib.PRNG) bool {
@@ -385,6 +431,8 @@ func (cs *childState) runStep(slot int, sc *scenario, qi int, qr *queueRun, r *v
 			d.EnqueueMemCopyH2D(qr.q, qr.buf, host)
 		}
 		copy(qr.exp, host)
+		qr.base = append(qr.base[:0], host...)
+		qr.ops = qr.ops[:0]
 		qr.hist = append(qr.hist, fmt.Sprintf("h2d#%d", qr.serial))
 	case "kernel":
 		args := kern.ElemArgs{Buf: qr.buf, C: st.C}
@@ -397,6 +445,7 @@ func (cs *childState) runStep(slot int, sc *scenario, qi int, qr *queueRun, r *v
 		for i := range qr.exp {
 			qr.exp[i] = st.Op.Apply(qr.exp[i], st.C)
 		}
+		qr.ops = append(qr.ops, st)
 		qr.hist = append(qr.hist, fmt.Sprintf("%v(%d)", st.Op, st.C))
 	case "drain":
 		if !qr.plan.Blocking {
@@ -419,6 +468,19 @@ func (cs *childState) runStep(slot int, sc *scenario, qi int, qr *queueRun, r *v
 		cs.rec.Count("commands_checked", int64(len(qr.hist)))
 		for i := range got {
 			if got[i] != qr.exp[i] {
+				if cs.p.Cfg.Timing {
+					if dropped, ok := explainByDroppedKernels(qr.base[i], qr.ops, got[i]); ok {
+						// Known defect of the timing platform (shared with C02 /
+						// C01): the L1 vector caches are not invalidated at
+						// kernel boundaries, so a later kernel of the chain
+						// can read the value an earlier kernel left in its
+						// compute unit's L1 and miss the writes in between.
+						cs.rec.Violation("C12|timing|kernel-misses-writes-of-earlier-kernels|stale-l1-across-kernels",
+							fmt.Sprintf("queue %d element %d: read back 0x%08x = the submission-order result with the effect of kernel(s) %v missing (history %v)", qi, i, got[i], dropped, tailOf(qr.hist, 12)),
+							map[string]any{"scenario": sc, "queue": qi, "element": i, "history": qr.hist, "platform": cs.p.Cfg, "dropped": dropped})
+						return false
+					}
+				}
 				cs.rec.Violation("C12|order-or-visibility|"+platClass(cs.p.Cfg),
 					fmt.Sprintf("queue %d element %d: read back 0x%08x, commands applied in submission order give 0x%08x (history %v)", qi, i, got[i], qr.exp[i], tailOf(qr.hist, 12)),
 					map[string]any{"scenario": sc, "queue": qi, "element": i, "history": qr.hist, "platform": cs.p.Cfg})
